@@ -350,6 +350,22 @@ Proof.
   unfold wr_to_copy. rewrite N.mul_assoc. remember (n * spc) as X. clear HeqX. intros H. lia.
 Qed.
 
+(* SPEC side: a write of `data` at offset off (off <= length old) into the byte array old *)
+Definition spec_write (old : list N) (off : N) (data : list N) : list N :=
+  firstn (N.to_nat off) old ++ data ++ skipn (N.to_nat off + length data) old.
+
+Lemma spec_write_length old off data : (N.to_nat off <= length old)%nat ->
+  length (spec_write old off data) = Nat.max (length old) (N.to_nat off + length data).
+Proof.
+  intros H. unfold spec_write. rewrite !app_length, firstn_length, skipn_length. lia.
+Qed.
+
+(* the fuel of write_loop: every iteration but the last fills its block *)
+Lemma fuel_step off n fu tc : tc = N.min (512 - off mod 512) n -> 0 < n ->
+  n + off mod 512 + 512 < 512 * N.of_nat (S fu) ->
+  (1 <= fu)%nat /\ (0 < n - tc -> (n - tc) + (off + tc) mod 512 + 512 < 512 * N.of_nat fu).
+Proof. intros -> Hn H. split; [lia|]. intros Hr. lia. Qed.
+
 Section Loop.
   Variable fsz : N.       (* sectors per FAT *)
   Variable vi fi : nat.   (* index of the volume / of the open-file record *)
@@ -748,4 +764,779 @@ Section Loop.
       + intros x fu l Hl Hdis. rewrite Hd. split; assumption.
     - apply same_tables_of_sbf. apply sbf_of_same_mgr. exact Hm.
   Qed.
+
+  (* ---------------------------------------------------------------- B. the whole loop *)
+  (* By induction on the fuel.  From a state satisfying the invariant, for data of any length
+     that fits below 2^32: the loop ends; either with Ok - all of `data` is stored at the offset -
+     or with DiskFull - then exactly the first k bytes are stored, where offset + k is the end
+     of the last cluster that could still be allocated, and no entry of the FAT is free.
+     In both cases wl_post describes the final state: file bytes, offset, size, chain, frame. *)
+  Theorem write_loop_spec : forall fuel data v ch f s,
+    wl_inv v ch f s -> f_offset f + N.of_nat (length data) < U32 ->
+    (1 <= fuel)%nat ->
+    (data <> [] -> N.of_nat (length data) + f_offset f mod 512 + 512 < 512 * N.of_nat fuel) ->
+    exists o s' v' ch' f' stored,
+      write_loop fuel fi vi data s = (o, s') /\
+      wl_post v ch f s stored v' ch' f' s' /\
+      ((o = Ok tt /\ stored = data) \/
+       (o = Err DiskFull /\ exists k, (k < length data)%nat /\ stored = firstn k data /\
+          f_offset f + N.of_nat k = N.of_nat (length ch') * bytes_per_cluster v /\
+          (forall j, 2 <= j -> j < v_clusters v + 2 -> fat_entry (s_disk s') v j <> 0))).
+  Proof.
+    induction fuel as [|fu IH]; intros data v ch f s Hinv H32 Hf1 Hfuel; [lia|].
+    destruct data as [|x t] eqn:Edata.
+    { exists (Ok tt), s, v, ch, f, []. split; [reflexivity|]. split; [|left; split; reflexivity].
+      apply wl_post_idle; [exact Hinv|reflexivity|apply same_mgr_refl|exact (wi_pre _ _ _ _ Hinv)]. }
+    rewrite <- Edata in *. assert (Hdata : data <> []) by (rewrite Edata; discriminate).
+    clear x t Edata. specialize (Hfuel Hdata).
+    set (off := f_offset f) in *. set (tc := wr_to_copy off data).
+    assert (Hn : 0 < N.of_nat (length data)) by (destruct data; [congruence|cbn [length]; lia]).
+    assert (Htc : tc <= N.of_nat (length data)) by apply wr_to_copy_le.
+    destruct (fuel_step off (N.of_nat (length data)) fu tc eq_refl Hn Hfuel) as (Hfu1 & Hfu2).
+    assert (Hrest_len : N.of_nat (length (skipn (N.to_nat tc) data)) = N.of_nat (length data) - tc)
+      by (rewrite skipn_length; lia).
+    assert (Hst_len : N.of_nat (length (firstn (N.to_nat tc) data)) = tc) by (apply stored_length; exact Htc).
+    pose proof (wi_off _ _ _ _ Hinv) as Hoff. pose proof (wi_size _ _ _ _ Hinv) as Hsize. fold off in Hoff.
+    (* the continuation, common to both kinds of step *)
+    assert (Hcont : forall v1 ch1 f1 s1,
+              write_loop (S fu) fi vi data s = write_loop fu fi vi (skipn (N.to_nat tc) data) s1 ->
+              wl_post v ch f s (firstn (N.to_nat tc) data) v1 ch1 f1 s1 ->
+              exists o s' v' ch' f' stored,
+                write_loop (S fu) fi vi data s = (o, s') /\
+                wl_post v ch f s stored v' ch' f' s' /\
+                ((o = Ok tt /\ stored = data) \/
+                 (o = Err DiskFull /\ exists k, (k < length data)%nat /\ stored = firstn k data /\
+                    off + N.of_nat k = N.of_nat (length ch') * bytes_per_cluster v /\
+                    (forall j, 2 <= j -> j < v_clusters v + 2 -> fat_entry (s_disk s') v j <> 0)))).
+    { intros v1 ch1 f1 s1 Hrun P1.
+      pose proof (wp_off _ _ _ _ _ _ _ _ _ P1) as O1. fold off in O1. rewrite Hst_len in O1.
+      destruct (wp_vol _ _ _ _ _ _ _ _ _ P1) as (nf1 & fc1 & Ev1).
+      destruct (IH (skipn (N.to_nat tc) data) v1 ch1 f1 s1 (wp_inv _ _ _ _ _ _ _ _ _ P1)
+                  ltac:(rewrite O1, Hrest_len; clear - H32 Htc; lia) Hfu1)
+        as (o & s' & v' & ch' & f' & st2 & Hrun2 & P2 & Hres).
+      { intros Hne. rewrite O1, Hrest_len. apply Hfu2.
+        destruct (skipn (N.to_nat tc) data) eqn:E; [congruence|].
+        rewrite <- Hrest_len. cbn [length]. lia. }
+      exists o, s', v', ch', f', (firstn (N.to_nat tc) data ++ st2).
+      split; [rewrite Hrun; exact Hrun2|].
+      split; [exact (wl_post_trans _ _ _ _ _ _ _ _ _ _ _ _ _ _ Hinv P1 P2)|].
+      destruct Hres as [(-> & ->)|(-> & k & Hk & -> & Hoffk & Hfull)].
+      - left. split; [reflexivity|apply firstn_skipn].
+      - right. split; [reflexivity|]. exists (N.to_nat tc + k)%nat.
+        split; [rewrite skipn_length in Hk; clear - Hk Htc; lia|].
+        split; [symmetry; apply firstn_add|].
+        subst v1. change (bytes_per_cluster (vol_rebook v nf1 fc1)) with (bytes_per_cluster v) in Hoffk.
+        split; [rewrite <- Hoffk, O1; clear; lia|exact Hfull]. }
+    destruct (N.lt_ge_cases off (N.of_nat (length ch) * bytes_per_cluster v)) as [Hin|Hge].
+    - destruct (wl_step_in_place fu v ch f data s Hinv Hdata ltac:(fold off; clear - H32; lia) Hin)
+        as (f1 & s1 & Hrun & P1).
+      exact (Hcont v ch f1 s1 Hrun P1).
+    - assert (Hend : off = N.of_nat (length ch) * bytes_per_cluster v) by (clear - Hge Hoff Hsize; lia).
+      destruct (wl_step_at_end fu v ch f data s Hinv Hdata ltac:(fold off; clear - H32; lia) Hend)
+        as [(v1 & c & f1 & s1 & Hrun & P1)|(s1 & Hrun & Hfull & Hd1 & Hm1 & Hpre1)].
+      + exact (Hcont v1 (ch ++ [c]) f1 s1 Hrun P1).
+      + exists (Err DiskFull), s1, v, ch, f, []. split; [exact Hrun|].
+        split; [exact (wl_post_idle v ch f s s1 Hinv Hd1 Hm1 Hpre1)|].
+        right. split; [reflexivity|]. exists 0%nat.
+        split; [clear - Hn; lia|]. split; [reflexivity|].
+        split; [fold off; rewrite Hend; clear; lia|].
+        intros j J1 J2. rewrite Hd1. exact (Hfull j J1 J2).
+  Qed.
+
+  (* ---------------------------------------------------------------- B, in the words of C01 *)
+  (* the contents of the file - the first `size` bytes of its clusters - after the loop are the
+     contents before with `stored` spliced in at the offset *)
+  Theorem wl_post_contents v ch f s stored v' ch' f' s' :
+    wl_inv v ch f s -> wl_post v ch f s stored v' ch' f' s' ->
+    firstn (N.to_nat (e_size (f_entry f'))) (file_bytes (s_disk s') v ch') =
+    spec_write (firstn (N.to_nat (e_size (f_entry f))) (file_bytes (s_disk s) v ch)) (f_offset f) stored.
+  Proof.
+    intros I0 [I1 (nf1 & fc1 & Ev1) (e1 & Ee1) M1 (pad1 & Lp1 & FB1) O1 Z1 En1 _ Fl1 Vl1 Fr1 T1].
+    subst v' ch'.
+    set (X := (N.to_nat (v_spc v) * 512)%nat) in *.
+    assert (Hl0 : length (file_bytes (s_disk s) v ch) = (length ch * X)%nat)
+      by (apply file_bytes_length; exact (wi_wf _ _ _ _ I0)).
+    assert (Hlen1 : length (file_bytes (s_disk s) v ch ++ pad1) = (length (ch ++ e1) * X)%nat).
+    { rewrite app_length, Hl0, Lp1, !app_length.
+      replace (length ch + length e1 - length ch)%nat with (length e1) by lia. lia. }
+    pose proof (wi_off _ _ _ _ I0) as P0. pose proof (wi_size _ _ _ _ I0) as Q0.
+    change (bytes_per_cluster v) with (v_spc v * 512) in Q0.
+    assert (Hb1 : (N.to_nat (f_offset f) + length stored <= length (ch ++ e1) * X)%nat).
+    { pose proof (wi_off _ _ _ _ I1) as P1. pose proof (wi_size _ _ _ _ I1) as P2.
+      change (bytes_per_cluster (vol_rebook v nf1 fc1)) with (v_spc v * 512) in P2.
+      rewrite O1 in P1. unfold X. clear - P1 P2. lia. }
+    assert (Hsz0 : (N.to_nat (e_size (f_entry f)) <= length ch * X)%nat) by (unfold X; clear - Q0; lia).
+    rewrite FB1, Z1.
+    replace (N.to_nat (N.max (e_size (f_entry f)) (f_offset f + N.of_nat (length stored))))
+      with (Nat.max (N.to_nat (e_size (f_entry f))) (N.to_nat (f_offset f) + length stored)) by (clear; lia).
+    rewrite firstn_set_bytes_spec; [|clear - P0; lia|rewrite Hlen1, app_length; clear - Hsz0; nia|rewrite Hlen1; exact Hb1].
+    unfold spec_write.
+    rewrite (firstn_app (N.to_nat (e_size (f_entry f)))).
+    replace (N.to_nat (e_size (f_entry f)) - length (file_bytes (s_disk s) v ch))%nat with 0%nat by (rewrite Hl0; lia).
+    cbn [firstn]. rewrite app_nil_r. reflexivity.
+  Qed.
+
+  (* "writing to one file never changes what any other file reads back": every chain of the
+     volume that shares no cluster with the file is still a chain and holds the same bytes *)
+  Theorem wl_post_others v ch f s stored v' ch' f' s' :
+    wl_inv v ch f s -> wl_post v ch f s stored v' ch' f' s' ->
+    forall x fu l, chain_of (s_disk s) v x fu = Some l -> (forall y, In y l -> ~ In y ch) ->
+      chain_of (s_disk s') v x fu = Some l /\ file_bytes (s_disk s') v l = file_bytes (s_disk s) v l.
+  Proof.
+    intros I0 P x fu l Hl Hdis.
+    destruct (wp_frame _ _ _ _ _ _ _ _ _ P) as (A1 & A2).
+    destruct (A2 x fu l Hl Hdis) as (Hl' & Hdis').
+    split; [exact Hl'|].
+    destruct (wi_pre _ _ _ _ I0) as (_ & L & _).
+    destruct (wi_chain _ _ _ _ (wp_inv _ _ _ _ _ _ _ _ _ P)) as (fuel1 & Hch1).
+    pose proof (chain_of_range _ _ _ _ _ Hch1) as R1. rewrite Forall_forall in R1.
+    pose proof (chain_of_range _ _ _ _ _ Hl) as R. rewrite Forall_forall in R.
+    apply file_bytes_frame. intros y b Hy Hb. apply A1.
+    - intros copy k Hk E. destruct (In_cluster_blocks _ _ _ Hb) as (q & _ & ->).
+      exact (fat_sector_not_data v fsz copy k y q L Hk (proj1 (R y Hy)) (eq_sym E)).
+    - intros Hin. apply in_flat_map in Hin. destruct Hin as (y' & Hy' & Hb').
+      refine (cluster_blocks_apart v y y' b b _ (proj1 (R y Hy)) (proj1 (R1 y' Hy')) Hb Hb' eq_refl).
+      intros ->. exact (Hdis' y' Hy Hy').
+  Qed.
 End Loop.
+
+(* ================================================================== C. mgr_write *)
+(* ---- running the monadic plumbing ---- *)
+Lemma locked_free' {A} (m : M A) s : s_lock s = false -> locked m s = m s.
+Proof. intros H. unfold locked, bind, get. rewrite H. reflexivity. Qed.
+
+Lemma get_file_by_id_ok h s fi :
+  find_idx (fun g => f_id g =? h) (s_files s) 0 = Some fi -> get_file_by_id h s = (Ok fi, s).
+Proof. intros H. unfold get_file_by_id, bind, get. rewrite H. reflexivity. Qed.
+
+Lemma get_volume_by_id_ok id s vi :
+  find_idx (fun w => v_id w =? id) (s_vols s) 0 = Some vi -> get_volume_by_id id s = (Ok vi, s).
+Proof. intros H. unfold get_volume_by_id, bind, get. rewrite H. reflexivity. Qed.
+
+Lemma find_idx_at {A} (p : A -> bool) l : forall i j, find_idx p l i = Some j ->
+  exists x, nth_error l (j - i) = Some x /\ p x = true.
+Proof.
+  induction l as [|a t IH]; intros i j H; cbn in H; [discriminate|].
+  destruct (p a) eqn:Hp.
+  - injection H as <-. exists a. rewrite Nat.sub_diag. split; [reflexivity|exact Hp].
+  - assert (Hge : forall l0 i0 j0, find_idx p l0 i0 = Some j0 -> (i0 <= j0)%nat).
+    { induction l0 as [|b l0 IH0]; intros i0 j0 H0; cbn in H0; [discriminate|].
+      destruct (p b); [injection H0 as <-; lia|apply IH0 in H0; lia]. }
+    pose proof (Hge _ _ _ H) as G. destruct (IH _ _ H) as (x & Hn & Hx). exists x. split; [|exact Hx].
+    replace (j - i)%nat with (S (j - S i)) by lia. exact Hn.
+Qed.
+
+Lemma find_idx_set {A} (p : A -> bool) y : forall l i j,
+  find_idx p l i = Some j -> p y = true -> find_idx p (list_set l (j - i) y) i = Some j.
+Proof.
+  induction l as [|a t IH]; intros i j H Hy; cbn in H; [discriminate|].
+  destruct (p a) eqn:Hp.
+  - injection H as <-. rewrite Nat.sub_diag. cbn. rewrite Hy. reflexivity.
+  - assert (Hge : forall l0 i0 j0, find_idx p l0 i0 = Some j0 -> (i0 <= j0)%nat).
+    { induction l0 as [|b l0 IH0]; intros i0 j0 H0; cbn in H0; [discriminate|].
+      destruct (p b); [injection H0 as <-; lia|apply IH0 in H0; lia]. }
+    pose proof (Hge _ _ _ H) as G.
+    replace (j - i)%nat with (S (j - S i)) by lia. cbn. rewrite Hp. apply IH; assumption.
+Qed.
+
+(* replacing the record of a volume by one with the same id does not change the lookup *)
+Lemma find_vol_set id vols vi v v' :
+  find_idx (fun w => v_id w =? id) vols 0 = Some vi -> nth_error vols vi = Some v -> v_id v' = v_id v ->
+  find_idx (fun w => v_id w =? id) (list_set vols vi v') 0 = Some vi.
+Proof.
+  intros H Hn E. pose proof (find_idx_set (fun w => v_id w =? id) v' vols 0 vi H) as G.
+  rewrite Nat.sub_0_r in G. apply G.
+  destruct (find_idx_at _ _ _ _ H) as (x & Hx & Hp). rewrite Nat.sub_0_r, Hn in Hx. inversion Hx; subst x.
+  rewrite E. exact Hp.
+Qed.
+
+Lemma find_file_set h files fi f f' :
+  find_idx (fun g => f_id g =? h) files 0 = Some fi -> nth_error files fi = Some f -> f_id f' = f_id f ->
+  find_idx (fun g => f_id g =? h) (list_set files fi f') 0 = Some fi.
+Proof.
+  intros H Hn E. pose proof (find_idx_set (fun g => f_id g =? h) f' files 0 fi H) as G.
+  rewrite Nat.sub_0_r in G. apply G.
+  destruct (find_idx_at _ _ _ _ H) as (x & Hx & Hp). rewrite Nat.sub_0_r, Hn in Hx. inversion Hx; subst x.
+  rewrite E. exact Hp.
+Qed.
+
+(* ---- the text of mgr_write after the handle, the volume and the mode are resolved ---- *)
+Definition mw_tail (fi : nat) : M unit :=
+  f4 <- get_file fi ;;
+  now <- get_timestamp ;;
+  let e := f_entry f4 in
+  put_file fi (set_f_entry f4 (set_e_mtime (set_e_attr e (N.lor (e_attr e) A_ARCHIVE)) now)).
+
+Definition mw_rest (fi : nat) (data : list N) : M unit :=
+  f2 <- get_file fi ;;
+  vi2 <- get_volume_by_id (f_vol f2) ;;
+  (if f_cur_cluster f2 <? e_cluster (f_entry f2)
+   then put_file fi (set_f_cur_cluster (set_f_cur_off f2 0) (e_cluster (f_entry f2)))
+   else ret tt) ;;;
+  f3 <- get_file fi ;;
+  let to_write := N.min (N.of_nat (length data)) (MAX_FILE_SIZE - f_offset f3) in
+  write_loop (N.to_nat (to_write / 512) + 3) fi vi2 (firstn (N.to_nat to_write) data) ;;;
+  mw_tail fi.
+
+Definition mw_first (fi vi : nat) (f : fileinfo) : M unit :=
+  if e_cluster (f_entry f) <? RESERVED_ENTRIES then
+    c <- alloc_cluster vi None false ;;
+    f1 <- get_file fi ;;
+    put_file fi (set_f_entry f1 (set_e_cluster (f_entry f1) c))
+  else ret tt.
+
+Lemma mgr_write_unfold h data s fi f vi :
+  s_lock s = false -> find_idx (fun g => f_id g =? h) (s_files s) 0 = Some fi ->
+  nth_error (s_files s) fi = Some f ->
+  find_idx (fun w => v_id w =? f_vol f) (s_vols s) 0 = Some vi ->
+  mgr_write h data s =
+  if mode_eqb (f_mode f) ReadOnly then (Err ReadOnlyErr, s)
+  else (mw_first fi vi f ;;; mw_rest fi data) (upd_file s fi (set_f_dirty f true)).
+Proof.
+  intros Hl Hh Hfi Hv. unfold mgr_write. rewrite (locked_free' _ _ Hl).
+  rewrite (bind_ok _ _ _ _ _ (get_file_by_id_ok h s fi Hh)).
+  rewrite (bind_ok _ _ _ _ _ (get_file_some fi f s Hfi)).
+  rewrite (bind_ok _ _ _ _ _ (get_volume_by_id_ok _ s vi Hv)).
+  destruct (mode_eqb (f_mode f) ReadOnly); reflexivity.
+Qed.
+
+(* the mode check: a ReadOnly handle refuses the write, nothing changes (cf. PrModes.C07_write_read_only) *)
+Theorem mgr_write_read_only h data s fi f vi :
+  s_lock s = false -> find_idx (fun g => f_id g =? h) (s_files s) 0 = Some fi ->
+  nth_error (s_files s) fi = Some f ->
+  find_idx (fun w => v_id w =? f_vol f) (s_vols s) 0 = Some vi ->
+  mode_eqb (f_mode f) ReadOnly = true ->
+  mgr_write h data s = (Err ReadOnlyErr, s).
+Proof. intros Hl Hh Hfi Hv Hm. rewrite (mgr_write_unfold h data s fi f vi Hl Hh Hfi Hv), Hm. reflexivity. Qed.
+
+Definition reset_cursor (f : fileinfo) : fileinfo :=
+  if f_cur_cluster f <? e_cluster (f_entry f)
+  then set_f_cur_cluster (set_f_cur_off f 0) (e_cluster (f_entry f)) else f.
+
+Lemma mw_rest_run fi data s f2 vi :
+  nth_error (s_files s) fi = Some f2 ->
+  find_idx (fun w => v_id w =? f_vol f2) (s_vols s) 0 = Some vi ->
+  let f3 := reset_cursor f2 in
+  let tw := N.min (N.of_nat (length data)) (MAX_FILE_SIZE - f_offset f3) in
+  mw_rest fi data s =
+  (write_loop (N.to_nat (tw / 512) + 3) fi vi (firstn (N.to_nat tw) data) ;;; mw_tail fi)
+    (upd_file s fi f3).
+Proof.
+  intros Hfi Hv f3 tw. unfold mw_rest.
+  rewrite (bind_ok _ _ _ _ _ (get_file_some fi f2 s Hfi)).
+  rewrite (bind_ok _ _ _ _ _ (get_volume_by_id_ok _ s vi Hv)).
+  subst tw f3. unfold reset_cursor.
+  destruct (f_cur_cluster f2 <? e_cluster (f_entry f2)).
+  - rewrite put_file_ok'.
+    rewrite (bind_ok _ _ _ _ _ (get_file_some fi _ (upd_file s fi _)
+               ltac:(cbn; eapply nth_error_list_set_same; exact Hfi))).
+    reflexivity.
+  - assert (E : upd_file s fi f2 = s).
+    { unfold upd_file. rewrite (list_set_same _ _ _ Hfi). destruct s; reflexivity. }
+    rewrite E.
+    rewrite bind_ret.
+    rewrite (bind_ok _ _ _ _ _ (get_file_some fi f2 s Hfi)). reflexivity.
+Qed.
+
+Definition stamp (e : dirent) (now : ts) : dirent :=
+  set_e_mtime (set_e_attr e (N.lor (e_attr e) A_ARCHIVE)) now.
+
+Lemma mw_tail_run fi s f4 : nth_error (s_files s) fi = Some f4 ->
+  mw_tail fi s = (Ok tt, upd_file (set_s_clock s (s_clock s + 1)) fi
+                           (set_f_entry f4 (stamp (f_entry f4) (clock_ts (s_clock s))))).
+Proof.
+  intros Hfi. unfold mw_tail. rewrite (bind_ok _ _ _ _ _ (get_file_some fi f4 s Hfi)). reflexivity.
+Qed.
+
+(* ---- the representation of one open file, as mgr_write needs it ---- *)
+(* the clusters of the file: the chain from its first cluster, with a valid cursor; or none
+   at all - a file that was created empty has first cluster 0 and its cursor there *)
+Definition chain_ok (s : st) (v : vol) (f : fileinfo) (ch : list N) : Prop :=
+  (2 <= e_cluster (f_entry f) /\
+   (exists fuel, chain_of (s_disk s) v (e_cluster (f_entry f)) fuel = Some ch) /\
+   cursor_ok v ch (f_cur_off f, f_cur_cluster f))
+  \/ (e_cluster (f_entry f) < 2 /\ ch = [] /\ f_cur_cluster f < 2).
+
+Record mw_pre (fsz h : N) (s : st) (fi : nat) (f : fileinfo) (vi : nat) (v : vol) (ch : list N) : Prop :=
+  mk_mw_pre {
+  mq_lock : s_lock s = false;
+  mq_find : find_idx (fun g => f_id g =? h) (s_files s) 0 = Some fi;
+  mq_file : nth_error (s_files s) fi = Some f;
+  mq_vol : find_idx (fun w => v_id w =? f_vol f) (s_vols s) 0 = Some vi;
+  mq_pre : alloc_pre s vi v fsz;
+  mq_fit : clusters_fit v;
+  mq_spc : 0 < v_spc v;
+  mq_wf : blocks_wf (s_disk s);
+  mq_chain : chain_ok s v f ch;
+  mq_off : f_offset f <= e_size (f_entry f);
+  mq_size : e_size (f_entry f) <= N.of_nat (length ch) * bytes_per_cluster v;
+  mq_u32 : e_size (f_entry f) < U32
+}.
+
+Lemma chain_single d v c g : 2 <= c -> c < v_clusters v + 2 -> fat_entry d v c = enc v CL_EOF ->
+  chain_of d v c (S g) = Some [c].
+Proof.
+  intros C1 C2 Hc. destruct (eof_is_end v) as (Eb & Ee). cbn [chain_of].
+  replace ((2 <=? c) && (c <? v_clusters v + 2)) with true
+    by (symmetry; apply andb_true_iff; split; [apply N.leb_le|apply N.ltb_lt]; assumption).
+  cbv zeta. rewrite Hc, Eb, Ee. reflexivity.
+Qed.
+
+Lemma reset_cursor_fields f :
+  f_entry (reset_cursor f) = f_entry f /\ f_offset (reset_cursor f) = f_offset f /\
+  f_id (reset_cursor f) = f_id f /\ f_vol (reset_cursor f) = f_vol f /\
+  f_mode (reset_cursor f) = f_mode f /\ f_dirty (reset_cursor f) = f_dirty f.
+Proof. unfold reset_cursor. destruct (f_cur_cluster f <? e_cluster (f_entry f)); repeat split; reflexivity. Qed.
+
+Lemma reset_cursor_ok v ch f : cursor_ok v ch (0, e_cluster (f_entry f)) ->
+  (e_cluster (f_entry f) <= f_cur_cluster f -> cursor_ok v ch (f_cur_off f, f_cur_cluster f)) ->
+  cursor_ok v ch (f_cur_off (reset_cursor f), f_cur_cluster (reset_cursor f)).
+Proof.
+  intros H0 H1. unfold reset_cursor. destruct (N.ltb_spec (f_cur_cluster f) (e_cluster (f_entry f))).
+  - exact H0.
+  - exact (H1 H).
+Qed.
+
+(* what the preamble of mgr_write achieves: state sD, record fD, volume record vD, chain chD *)
+Record mw_prep (fsz : N) (vi fi : nat) (s : st) (f : fileinfo) (v : vol) (ch : list N)
+               (sD : st) (fD : fileinfo) (vD : vol) (chD : list N) : Prop := mk_mw_prep {
+  pr_inv : wl_inv fsz vi fi (e_cluster (f_entry fD)) vD chD fD sD;
+  pr_first : 2 <= e_cluster (f_entry fD) /\
+             (2 <= e_cluster (f_entry f) -> e_cluster (f_entry fD) = e_cluster (f_entry f));
+  pr_entry : f_entry fD = set_e_cluster (f_entry f) (e_cluster (f_entry fD));
+  pr_off : f_offset fD = f_offset f;
+  pr_id : f_id fD = f_id f /\ f_vol fD = f_vol f /\ f_mode fD = f_mode f /\ f_dirty fD = true;
+  pr_vol : exists nf fc, vD = vol_rebook v nf fc;
+  pr_vols : s_vols sD = list_set (s_vols s) vi vD;
+  pr_files : s_files sD = list_set (s_files s) fi fD;
+  pr_chain : (chD = ch /\ s_disk sD = s_disk s) \/ (ch = [] /\ chD = [e_cluster (f_entry fD)]);
+  pr_frame : wframe fsz v ch chD (s_disk s) (s_disk sD);
+  pr_tables : same_tables s sD
+}.
+
+Lemma mw_prepare fsz h data s fi f vi v ch :
+  mw_pre fsz h s fi f vi v ch ->
+  let sA := upd_file s fi (set_f_dirty f true) in
+  (exists sD fD vD chD,
+     mw_prep fsz vi fi s f v ch sD fD vD chD /\
+     let tw := N.min (N.of_nat (length data)) (MAX_FILE_SIZE - f_offset f) in
+     (mw_first fi vi f ;;; mw_rest fi data) sA =
+     (write_loop (N.to_nat (tw / 512) + 3) fi vi (firstn (N.to_nat tw) data) ;;; mw_tail fi) sD)
+  \/ (exists s', (mw_first fi vi f ;;; mw_rest fi data) sA = (Err NotEnoughSpace, s') /\
+        e_cluster (f_entry f) < 2 /\
+        (forall j, 2 <= j -> j < v_clusters v + 2 -> fat_entry (s_disk s) v j <> 0) /\
+        s_disk s' = s_disk s /\ same_mgr sA s' /\ alloc_pre s' vi v fsz).
+Proof.
+  intros [Hl Hh Hfi Hvol Hpre Hfit Hspc Hwf Hchain Hoff Hsize H32] sA.
+  set (fA := set_f_dirty f true) in *.
+  assert (HfiA : nth_error (s_files sA) fi = Some fA)
+    by (cbn; eapply nth_error_list_set_same; exact Hfi).
+  assert (HpreA : alloc_pre sA vi v fsz) by exact Hpre.
+  pose proof Hpre as ((Hnf & Hc & Hvi & Hlen) & L & Hh0).
+  destruct Hchain as [(A1 & (fuel0 & A2) & A3)|(A1 & -> & A3)].
+  - (* the file has clusters *)
+    left.
+    assert (E : (e_cluster (f_entry f) <? RESERVED_ENTRIES) = false) by (apply N.ltb_ge; exact A1).
+    destruct (reset_cursor_fields fA) as (G1 & G2 & G3 & G4 & G5 & G6).
+    exists (upd_file sA fi (reset_cursor fA)), (reset_cursor fA), v, ch. split.
+    + constructor.
+      * constructor; try assumption.
+        -- exists fuel0. rewrite G1. exact A2.
+        -- cbn. rewrite list_set_twice. eapply nth_error_list_set_same. exact Hfi.
+        -- reflexivity.
+        -- apply reset_cursor_ok; [exact (cursor_ok_first v _ _ _ _ A2)|intros _; exact A3].
+        -- rewrite G1, G2. exact Hoff.
+        -- rewrite G1. exact Hsize.
+      * rewrite G1. split; [exact A1|intros _; reflexivity].
+      * rewrite G1. cbn. destruct (f_entry f); reflexivity.
+      * exact G2.
+      * rewrite G3, G4, G5, G6. repeat split; reflexivity.
+      * exists (v_next_free v), (v_free v). apply vol_rebook_self.
+      * cbn. symmetry. apply list_set_same. exact Hvi.
+      * cbn. apply list_set_twice.
+      * left. split; reflexivity.
+      * split; [intros j _ _; reflexivity|intros x fu l Hl0 Hdis; split; assumption].
+      * unfold same_tables. cbn. repeat split; reflexivity.
+    + cbv zeta. unfold mw_first. rewrite E, bind_ret.
+      rewrite (mw_rest_run fi data sA fA vi HfiA Hvol). cbv zeta. rewrite G2. reflexivity.
+  - (* the file has no cluster yet: one is allocated *)
+    assert (E : (e_cluster (f_entry f) <? RESERVED_ENTRIES) = true) by (apply N.ltb_lt; exact A1).
+    assert (HprevN : forall p, @None N = Some p -> p < v_clusters v + 2) by (intros p Ep; discriminate Ep).
+    destruct (alloc_cluster_total vi v fsz None false sA HpreA HprevN) as (o & s2 & Ha & Hres).
+    destruct Hres as [(-> & Hnone & Hd2 & Hm2 & _ & Hst2)|(c & -> & _)].
+    + right. exists s2. split.
+      { unfold mw_first. rewrite E. rewrite bind_bind. rewrite (bind_err _ _ _ _ _ Ha). reflexivity. }
+      split; [exact A1|]. split; [intros j J1 J2; rewrite fat_entry_get; exact (Hnone j J1 J2)|].
+      split; [exact Hd2|]. split; [exact Hm2|]. split; [exact Hst2|split; assumption].
+    + left.
+      pose proof (alloc_files_of_effect vi v fsz None sA c s2 HpreA Hwf
+                    ltac:(intros p Ep; discriminate Ep) Ha) as AF.
+      destruct (af_range _ _ _ _ _ _ _ AF) as (R1 & R2 & R3).
+      destruct (af_vol _ _ _ _ _ _ _ AF) as (nf & fc & Evols & Hpre2).
+      set (v' := vol_rebook v nf fc) in *.
+      set (fB := set_f_entry fA (set_e_cluster (f_entry fA) c)).
+      set (sC := upd_file s2 fi fB).
+      assert (Hfi2 : nth_error (s_files s2) fi = Some fA) by (rewrite (af_files _ _ _ _ _ _ _ AF); exact HfiA).
+      assert (HfiC : nth_error (s_files sC) fi = Some fB) by (cbn; eapply nth_error_list_set_same; exact Hfi2).
+      assert (HvolC : find_idx (fun w => v_id w =? f_vol fB) (s_vols sC) 0 = Some vi).
+      { cbn [sC upd_file s_vols set_s_files]. rewrite Evols. apply (find_vol_set _ _ _ v); [exact Hvol|exact Hvi|reflexivity]. }
+      assert (Hreset : reset_cursor fB = set_f_cur_cluster (set_f_cur_off fB 0) c).
+      { unfold reset_cursor. change (f_cur_cluster fB) with (f_cur_cluster f).
+        change (e_cluster (f_entry fB)) with c.
+        replace (f_cur_cluster f <? c) with true by (symmetry; apply N.ltb_lt; clear - A3 R1; lia).
+        reflexivity. }
+      set (fD := set_f_cur_cluster (set_f_cur_off fB 0) c) in *.
+      exists (upd_file sC fi fD), fD, v', [c]. split.
+      * cbn [length] in Hsize.
+        assert (E0 : e_size (f_entry f) = 0) by (clear - Hsize; lia).
+        constructor.
+        -- constructor.
+           ++ exact Hpre2.
+           ++ exact Hfit.
+           ++ exact Hspc.
+           ++ exact (af_wf _ _ _ _ _ _ _ AF).
+           ++ exists 1%nat. unfold v'. rewrite chain_of_rebook.
+              exact (chain_single _ _ _ _ R1 R2 (af_new _ _ _ _ _ _ _ AF)).
+           ++ cbn. rewrite list_set_twice. eapply nth_error_list_set_same. exact Hfi2.
+           ++ reflexivity.
+           ++ exists 0%nat. split; reflexivity.
+           ++ exact Hoff.
+           ++ change (e_size (f_entry fD)) with (e_size (f_entry f)). rewrite E0. clear. lia.
+        -- split; [exact R1|]. intros G. clear - G A1. lia.
+        -- reflexivity.
+        -- reflexivity.
+        -- repeat split; reflexivity.
+        -- exists nf, fc. reflexivity.
+        -- cbn. exact Evols.
+        -- cbn. rewrite (af_files _ _ _ _ _ _ _ AF). cbn. rewrite !list_set_twice. reflexivity.
+        -- right. split; reflexivity.
+        -- split.
+           ++ intros j Hfat _. exact (af_data _ _ _ _ _ _ _ AF j Hfat).
+           ++ intros x fu l Hl0 _.
+              destruct (af_chains _ _ _ _ _ _ _ AF x fu l Hl0 ltac:(intros p Ep; discriminate Ep)) as (Hl2 & Hcl).
+              split; [exact Hl2|]. intros y Hy [<-|[]]. exact (Hcl Hy).
+        -- pose proof (af_tables _ _ _ _ _ _ _ AF) as T. unfold same_tables in *. cbn in *. exact T.
+      * cbv zeta. unfold mw_first. rewrite E. rewrite bind_bind. rewrite (bind_ok _ _ _ _ _ Ha).
+        rewrite bind_bind. rewrite (bind_ok _ _ _ _ _ (get_file_some fi fA s2 Hfi2)).
+        rewrite put_file_ok'. fold fB. fold sC.
+        rewrite (mw_rest_run fi data sC fB vi HfiC HvolC). cbv zeta. rewrite Hreset. reflexivity.
+Qed.
+
+(* ---- the frame, for other files ---- *)
+Lemma wframe_others fsz v ch ch' D D' :
+  fat_layout v fsz -> Forall (fun c => 2 <= c) ch' -> wframe fsz v ch ch' D D' ->
+  forall x fu l, chain_of D v x fu = Some l -> (forall y, In y l -> ~ In y ch) ->
+    chain_of D' v x fu = Some l /\ file_bytes D' v l = file_bytes D v l.
+Proof.
+  intros L R1 (A1 & A2) x fu l Hl Hdis. rewrite Forall_forall in R1.
+  destruct (A2 x fu l Hl Hdis) as (Hl' & Hdis'). split; [exact Hl'|].
+  pose proof (chain_of_range _ _ _ _ _ Hl) as R. rewrite Forall_forall in R.
+  apply file_bytes_frame. intros y b Hy Hb. apply A1.
+  - intros copy k Hk E. destruct (In_cluster_blocks _ _ _ Hb) as (q & _ & ->).
+    exact (fat_sector_not_data v fsz copy k y q L Hk (proj1 (R y Hy)) (eq_sym E)).
+  - intros Hin. apply in_flat_map in Hin. destruct Hin as (y' & Hy' & Hb').
+    refine (cluster_blocks_apart v y y' b b _ (proj1 (R y Hy)) (R1 y' Hy') Hb Hb' eq_refl).
+    intros ->. exact (Hdis' y' Hy Hy').
+Qed.
+
+Definition no_free (d : disk) (v : vol) : Prop :=
+  forall j, 2 <= j -> j < v_clusters v + 2 -> fat_entry d v j <> 0.
+
+(* the state after mgr_write stored `stored` at the offset; stamped = the call ran to its end
+   (archive bit set and modification time taken from the clock) *)
+Record mw_post (fsz h : N) (s : st) (fi : nat) (f : fileinfo) (vi : nat) (v : vol) (ch : list N)
+               (stamped : bool) (stored : list N)
+               (s' : st) (f' : fileinfo) (v' : vol) (ch' : list N) : Prop := mk_mw_post {
+  mp_pre : mw_pre fsz h s' fi f' vi v' ch';
+  mp_first : 2 <= e_cluster (f_entry f') /\
+             (2 <= e_cluster (f_entry f) -> e_cluster (f_entry f') = e_cluster (f_entry f));
+  mp_vol : exists nf fc, v' = vol_rebook v nf fc;
+  mp_vols : s_vols s' = list_set (s_vols s) vi v';
+  mp_ext : exists ext, ch' = ch ++ ext;
+  mp_min : length ch' = length ch \/ (ch = [] /\ length ch' = 1%nat) \/
+           N.of_nat (length ch' - 1) * bytes_per_cluster v < f_offset f + N.of_nat (length stored);
+  mp_bytes : firstn (N.to_nat (e_size (f_entry f'))) (file_bytes (s_disk s') v ch') =
+             spec_write (firstn (N.to_nat (e_size (f_entry f))) (file_bytes (s_disk s) v ch))
+                        (f_offset f) stored;
+  mp_off : f_offset f' = f_offset f + N.of_nat (length stored);
+  mp_size : e_size (f_entry f') = N.max (e_size (f_entry f)) (f_offset f + N.of_nat (length stored));
+  mp_id : f_id f' = f_id f /\ f_vol f' = f_vol f /\ f_mode f' = f_mode f /\ f_dirty f' = true;
+  mp_entry : f_entry f' =
+             let e0 := set_e_size (set_e_cluster (f_entry f) (e_cluster (f_entry f'))) (e_size (f_entry f')) in
+             if stamped then stamp e0 (clock_ts (s_clock s)) else e0;
+  mp_clock : s_clock s' = if stamped then s_clock s + 1 else s_clock s;
+  mp_files : s_files s' = list_set (s_files s) fi f';
+  mp_frame : wframe fsz v ch ch' (s_disk s) (s_disk s');
+  mp_others : forall x fu l, chain_of (s_disk s) v x fu = Some l -> (forall y, In y l -> ~ In y ch) ->
+              chain_of (s_disk s') v x fu = Some l /\ file_bytes (s_disk s') v l = file_bytes (s_disk s) v l;
+  mp_tables : s_dirs s' = s_dirs s /\ s_next_id s' = s_next_id s /\ s_lock s' = s_lock s /\
+              s_maxv s' = s_maxv s /\ s_maxd s' = s_maxd s /\ s_maxf s' = s_maxf s /\
+              s_faults s' = s_faults s
+}.
+
+Lemma mw_post_build fsz h s fi f vi v ch sD fD vD chD stored s1 f1 v1 ch1 :
+  mw_pre fsz h s fi f vi v ch -> mw_prep fsz vi fi s f v ch sD fD vD chD ->
+  wl_post fsz vi fi (e_cluster (f_entry fD)) vD chD fD sD stored v1 ch1 f1 s1 ->
+  f_offset f + N.of_nat (length stored) < U32 ->
+  mw_post fsz h s fi f vi v ch false stored s1 f1 v1 ch1.
+Proof.
+  intros [Hl Hh Hfi Hvol Hpre Hfit Hspc Hwf Hchain Hoff Hsize H32]
+         [Pinv (Pf1 & Pf2) Pentry Poff (Pi1 & Pi2 & Pi3 & Pi4) (nf0 & fc0 & EvD) PvolsD PfilesD Pchain Pframe Ptab]
+         P Hfit32.
+  pose proof (wl_post_contents _ _ _ _ _ _ _ _ _ _ _ _ _ Pinv P) as Hbytes.
+  destruct P as [I1 (nf1 & fc1 & Ev1) (e1 & Ee1) M1 _ O1 Z1 En1 (A1 & A2 & A3 & A4) Fl1 Vl1 Fr1 T1].
+  pose proof Hpre as ((_ & _ & Hvi & _) & L & _).
+  assert (EsD : e_size (f_entry fD) = e_size (f_entry f)) by (rewrite Pentry; reflexivity).
+  assert (Ec1 : e_cluster (f_entry f1) = e_cluster (f_entry fD)) by exact (wi_first _ _ _ _ _ _ _ _ I1).
+  destruct T1 as (T1 & T2 & T3 & T4 & T5 & T6 & T7 & T8).
+  destruct Ptab as (U1 & U2 & U3 & U4 & U5 & U6 & U7 & U8).
+  assert (Hfiles : s_files s1 = list_set (s_files s) fi f1) by (rewrite Fl1, PfilesD; apply list_set_twice).
+  assert (Hvols : s_vols s1 = list_set (s_vols s) vi v1) by (rewrite Vl1, PvolsD; apply list_set_twice).
+  subst vD. subst v1.
+  destruct (wi_chain _ _ _ _ _ _ _ _ I1) as (fuel1 & Hch1).
+  constructor.
+  - constructor.
+    + congruence.
+    + rewrite Hfiles. apply (find_file_set _ _ _ f); [exact Hh|exact Hfi|congruence].
+    + exact (wi_file _ _ _ _ _ _ _ _ I1).
+    + rewrite Hvols, A2, Pi2. apply (find_vol_set _ _ _ v); [exact Hvol|exact Hvi|reflexivity].
+    + exact (wi_pre _ _ _ _ _ _ _ _ I1).
+    + exact (wi_fit _ _ _ _ _ _ _ _ I1).
+    + exact (wi_spc _ _ _ _ _ _ _ _ I1).
+    + exact (wi_wf _ _ _ _ _ _ _ _ I1).
+    + left. rewrite Ec1. split; [exact Pf1|]. split; [exists fuel1; exact Hch1|exact (wi_cur _ _ _ _ _ _ _ _ I1)].
+    + exact (wi_off _ _ _ _ _ _ _ _ I1).
+    + exact (wi_size _ _ _ _ _ _ _ _ I1).
+    + rewrite Z1, EsD, Poff. clear - H32 Hfit32. lia.
+  - rewrite Ec1. split; assumption.
+  - exists nf1, fc1. reflexivity.
+  - exact Hvols.
+  - destruct Pchain as [(-> & _)|(-> & ->)].
+    + exists e1. exact Ee1.
+    + exists ([e_cluster (f_entry fD)] ++ e1). exact Ee1.
+  - rewrite Poff in M1. change (bytes_per_cluster (vol_rebook v nf0 fc0)) with (bytes_per_cluster v) in M1.
+    destruct Pchain as [(-> & _)|(-> & ->)].
+    + destruct M1 as [M1|M1]; [left; exact M1|right; right; exact M1].
+    + destruct M1 as [M1|M1]; [right; left; split; [reflexivity|exact M1]|right; right; exact M1].
+  - rewrite file_bytes_rebook in Hbytes. rewrite Hbytes, EsD, Poff. f_equal.
+    destruct Pchain as [(-> & Ed)|(-> & ->)].
+    + rewrite file_bytes_rebook, Ed. reflexivity.
+    + cbn [length] in Hsize. replace (e_size (f_entry f)) with 0 by (clear - Hsize; lia). reflexivity.
+  - rewrite O1, Poff. reflexivity.
+  - rewrite Z1, EsD, Poff. reflexivity.
+  - repeat split; congruence.
+  - cbv zeta. rewrite En1 at 1. rewrite Pentry, Ec1. reflexivity.
+  - congruence.
+  - exact Hfiles.
+  - apply (wframe_trans fsz v nf0 fc0 ch chD ch1 _ _ _ (ex_intro _ e1 Ee1) Pframe Fr1).
+  - apply (wframe_others fsz v ch ch1 _ _ L).
+    + pose proof (chain_of_range _ _ _ _ _ Hch1) as R. rewrite Forall_forall in *. intros c Hc. exact (proj1 (R c Hc)).
+    + apply (wframe_trans fsz v nf0 fc0 ch chD ch1 _ _ _ (ex_intro _ e1 Ee1) Pframe Fr1).
+  - repeat split; congruence.
+Qed.
+
+(* the last statements of mgr_write: archive bit and modification time; the clock ticks *)
+Lemma mw_post_stamp fsz h s fi f vi v ch stored s1 f1 v1 ch1 :
+  mw_post fsz h s fi f vi v ch false stored s1 f1 v1 ch1 ->
+  mw_post fsz h s fi f vi v ch true stored
+    (upd_file (set_s_clock s1 (s_clock s1 + 1)) fi (set_f_entry f1 (stamp (f_entry f1) (clock_ts (s_clock s1)))))
+    (set_f_entry f1 (stamp (f_entry f1) (clock_ts (s_clock s1)))) v1 ch1.
+Proof.
+  intros [[Hl Hh Hfi Hvol Hpre Hfit Hspc Hwf Hchain Hoff Hsize H32] F1 V1 V2 X1 M1 B1 O1 Z1 (I1 & I2 & I3 & I4)
+          E1 C1 Fl1 Fr1 Ot1 (T1 & T2 & T3 & T4 & T5 & T6 & T7)].
+  cbv zeta in E1. cbv iota in C1.
+  set (fF := set_f_entry f1 (stamp (f_entry f1) (clock_ts (s_clock s1)))).
+  constructor; try assumption.
+  - constructor; try assumption.
+    + cbn. apply (find_file_set _ _ _ f1); [exact Hh|exact Hfi|reflexivity].
+    + cbn. eapply nth_error_list_set_same. exact Hfi.
+  - repeat split; assumption.
+  - cbv zeta. change (f_entry fF) with (stamp (f_entry f1) (clock_ts (s_clock s1))).
+    change (e_cluster (stamp (f_entry f1) (clock_ts (s_clock s1)))) with (e_cluster (f_entry f1)).
+    change (e_size (stamp (f_entry f1) (clock_ts (s_clock s1)))) with (e_size (f_entry f1)).
+    rewrite C1. rewrite E1 at 1. reflexivity.
+  - cbn. rewrite C1. reflexivity.
+  - cbn. rewrite Fl1. apply list_set_twice.
+  - repeat split; assumption.
+Qed.
+
+(* C.  mgr_write, the public operation, for a handle that is not ReadOnly.
+   `clip` is what the call stores: the request clipped so that the file stays below 2^32 - 1
+   bytes - and the call still answers Ok (finding D23).
+   Three outcomes exist (and no other: no panic, no fuel exhaustion, no other error):
+   - Ok: clip is stored; the record is dirty, has the first cluster (allocated if the file had
+     none), the new offset and size, the archive bit and the time of the clock;
+   - DiskFull: exactly the first k bytes of clip are stored, up to the end of the last cluster
+     that could be allocated; offset and size say so; no archive bit / time stamp;
+   - NotEnoughSpace: the file had no cluster and none is free; only the dirty flag is set. *)
+Theorem mgr_write_spec fsz h data s fi f vi v ch :
+  mw_pre fsz h s fi f vi v ch -> mode_eqb (f_mode f) ReadOnly = false ->
+  let clip := firstn (N.to_nat (N.min (N.of_nat (length data)) (MAX_FILE_SIZE - f_offset f))) data in
+  exists o s', mgr_write h data s = (o, s') /\
+    ((o = Ok tt /\ exists f' v' ch', mw_post fsz h s fi f vi v ch true clip s' f' v' ch') \/
+     (o = Err DiskFull /\ exists f' v' ch' k, (k < length clip)%nat /\
+        mw_post fsz h s fi f vi v ch false (firstn k clip) s' f' v' ch' /\
+        f_offset f + N.of_nat k = N.of_nat (length ch') * bytes_per_cluster v /\
+        no_free (s_disk s') v) \/
+     (o = Err NotEnoughSpace /\ e_cluster (f_entry f) < 2 /\ no_free (s_disk s) v /\
+        s_disk s' = s_disk s /\ s_files s' = list_set (s_files s) fi (set_f_dirty f true) /\
+        s_vols s' = s_vols s /\ same_tables s s' /\ alloc_pre s' vi v fsz)).
+Proof.
+  intros Hmw Hmode clip.
+  pose proof Hmw as [Hl Hh Hfi Hvol Hpre Hfit Hspc Hwf Hchain Hoff Hsize H32].
+  rewrite (mgr_write_unfold h data s fi f vi Hl Hh Hfi Hvol), Hmode.
+  destruct (mw_prepare fsz h data s fi f vi v ch Hmw)
+    as [(sD & fD & vD & chD & Prep & Hrun)|(s' & Hrun & Hc0 & Hnone & Hd & Hm & Hpre')].
+  2:{ exists (Err NotEnoughSpace), s'. split; [exact Hrun|]. right. right.
+      split; [reflexivity|]. split; [exact Hc0|]. split; [exact Hnone|]. split; [exact Hd|].
+      destruct Hm as (M1 & M2 & M3 & M4 & M5 & M6 & M7 & M8 & M9 & M10).
+      split; [exact M3|]. split; [exact M1|]. split; [|exact Hpre']. unfold same_tables. repeat split; assumption. }
+  cbv zeta in Hrun. rewrite Hrun. clear Hrun.
+  set (tw := N.min (N.of_nat (length data)) (MAX_FILE_SIZE - f_offset f)) in *.
+  assert (Hclip_len : N.of_nat (length clip) = tw) by (unfold clip; rewrite firstn_length; unfold tw; lia).
+  pose proof (pr_off _ _ _ _ _ _ _ _ _ _ _ Prep) as PoffD.
+  assert (HtwM : f_offset f + tw <= MAX_FILE_SIZE) by (unfold tw, MAX_FILE_SIZE, U32 in *; clear - Hoff H32; lia).
+  destruct (write_loop_spec fsz vi fi (e_cluster (f_entry fD)) (N.to_nat (tw / 512) + 3) clip vD chD fD sD
+              (pr_inv _ _ _ _ _ _ _ _ _ _ _ Prep))
+    as (o & s1 & v1 & ch1 & f1 & stored & Hloop & P & Hres).
+  { rewrite PoffD, Hclip_len. unfold MAX_FILE_SIZE, U32 in *. clear - HtwM. lia. }
+  { clear. lia. }
+  { intros _. rewrite PoffD, Hclip_len. clear. lia. }
+  destruct Hres as [(-> & ->)|(-> & k & Hk & -> & Hoffk & Hfull)].
+  - (* all of clip stored: the tail runs *)
+    rewrite (bind_ok _ _ _ _ _ Hloop).
+    pose proof (mw_post_build fsz h s fi f vi v ch sD fD vD chD clip s1 f1 v1 ch1 Hmw Prep P
+                  ltac:(rewrite Hclip_len; unfold MAX_FILE_SIZE, U32 in *; clear - HtwM; lia)) as Q.
+    rewrite (mw_tail_run fi s1 f1 (mq_file _ _ _ _ _ _ _ _ (mp_pre _ _ _ _ _ _ _ _ _ _ _ _ _ _ Q))).
+    eexists. eexists. split; [reflexivity|]. left. split; [reflexivity|].
+    eexists. exists v1, ch1. exact (mw_post_stamp _ _ _ _ _ _ _ _ _ _ _ _ _ Q).
+  - (* the disk filled up part-way *)
+    rewrite (bind_err _ _ _ _ _ Hloop).
+    assert (Hkl : N.of_nat (length (firstn k clip)) = N.of_nat k) by (rewrite firstn_length; clear - Hk; lia).
+    pose proof (mw_post_build fsz h s fi f vi v ch sD fD vD chD (firstn k clip) s1 f1 v1 ch1 Hmw Prep P
+                  ltac:(rewrite Hkl; unfold MAX_FILE_SIZE, U32 in *; clear - HtwM Hk Hclip_len; lia)) as Q.
+    exists (Err DiskFull), s1. split; [reflexivity|]. right. left. split; [reflexivity|].
+    exists f1, v1, ch1, k. split; [exact Hk|]. split; [exact Q|].
+    destruct (pr_vol _ _ _ _ _ _ _ _ _ _ _ Prep) as (nf0 & fc0 & ->).
+    split; [rewrite <- PoffD; exact Hoffk|exact Hfull].
+Qed.
+
+(* finding D23, as a statement about the model: a request that would take the file past
+   2^32 - 1 bytes is cut short - strictly fewer bytes than asked for are stored - and, by
+   mgr_write_spec, the call still answers Ok when the disk has room *)
+Lemma D23_clip_is_short off (data : list N) : off <= MAX_FILE_SIZE -> MAX_FILE_SIZE < off + N.of_nat (length data) ->
+  let clip := firstn (N.to_nat (N.min (N.of_nat (length data)) (MAX_FILE_SIZE - off))) data in
+  N.of_nat (length clip) = MAX_FILE_SIZE - off /\ (length clip < length data)%nat.
+Proof. intros H1 H2 clip. unfold clip. rewrite firstn_length. unfold MAX_FILE_SIZE in *. lia. Qed.
+
+(* ================================================================== the hypotheses are satisfiable *)
+(* PrRw's example: the FAT16 volume of PrDir (100 clusters of 2 blocks, one FAT of 1 sector at
+   block 11, data area from block 30) with the file of 1500 bytes in clusters 2 -> 3, open
+   for writing with handle 7 at offset 700 *)
+Lemma exd_layout : fat_layout exd_vol 1.
+Proof.
+  constructor.
+  - constructor; try (intros _); vm_compute; reflexivity.
+  - intros sf E. discriminate E.
+  - vm_compute. reflexivity.
+  - intros sf E. discriminate E.
+  - vm_compute. discriminate.
+  - intros sf E. discriminate E.
+Qed.
+
+Lemma exr_alloc_pre : alloc_pre exr_state 0 exd_vol 1.
+Proof.
+  split; [|split; [exact exd_layout|intros c E; discriminate E]].
+  split; [intros n H; destruct H|]. split; [intros i H; discriminate H|]. split; [reflexivity|].
+  intros k _. apply exd_disk_wf.
+Qed.
+
+Example write_example :
+  mw_pre 1 7 exr_state 0 exr_file 0 exd_vol [2; 3] /\
+  wl_inv 1 0 0 2 exd_vol [2; 3] exr_file exr_state /\
+  mode_eqb (f_mode exr_file) ReadOnly = false /\
+  (* the conclusions, computed: 2000 bytes written at offset 700 need a third cluster *)
+  let data := repeat 7 2000 in
+  fst (mgr_write 7 data exr_state) = Ok tt /\
+  (let s' := snd (mgr_write 7 data exr_state) in
+   chain_of (s_disk s') exd_vol 2 5 = Some [2; 3; 4] /\
+   option_map (fun g => (f_offset g, e_size (f_entry g), f_dirty g, e_attr (f_entry g)))
+              (nth_error (s_files s') 0) = Some (2700, 2700, true, 32) /\
+   firstn 2700 (file_bytes (s_disk s') exd_vol [2; 3; 4]) =
+   spec_write (firstn 1500 (file_bytes exd_disk exd_vol [2; 3])) 700 data).
+Proof.
+  assert (Hcur : cursor_ok exd_vol [2; 3] (f_cur_off exr_file, f_cur_cluster exr_file))
+    by (exists 0%nat; split; reflexivity).
+  split; [|split; [|split; [reflexivity|]]].
+  - constructor; try reflexivity; try exact exr_alloc_pre; try exact exd_disk_wf;
+      try (vm_compute; discriminate).
+    left. split; [vm_compute; discriminate|]. split; [exists 5%nat; vm_compute; reflexivity|exact Hcur].
+  - constructor; try reflexivity; try exact exr_alloc_pre; try exact exd_disk_wf; try exact Hcur;
+      try (vm_compute; discriminate).
+    exists 5%nat. vm_compute. reflexivity.
+  - cbv zeta. split; [vm_compute; reflexivity|]. split; [vm_compute; reflexivity|].
+    split; vm_compute; reflexivity.
+Qed.
+
+(* a file that was created empty (first cluster 0): the first write allocates cluster 4 *)
+Definition exw_empty_file : fileinfo :=
+  mk_fileinfo 7 0 0 0 0 ReadWriteCreate (set_e_size (set_e_cluster exr_entry 0) 0) false.
+Definition exw_empty_state : st :=
+  mk_st exd_disk zero_block None [exd_vol] [] [exw_empty_file] 8 0 0 [] [] false 1 1 1.
+
+Example write_empty_example :
+  mw_pre 1 7 exw_empty_state 0 exw_empty_file 0 exd_vol [] /\
+  fst (mgr_write 7 [1; 2; 3] exw_empty_state) = Ok tt /\
+  (let s' := snd (mgr_write 7 [1; 2; 3] exw_empty_state) in
+   option_map (fun g => (e_cluster (f_entry g), f_cur_off g, f_cur_cluster g, f_offset g, e_size (f_entry g)))
+              (nth_error (s_files s') 0) = Some (4, 0, 4, 3, 3) /\
+   firstn 3 (file_bytes (s_disk s') exd_vol [4]) = [1; 2; 3]).
+Proof.
+  split; [|split; [vm_compute; reflexivity|split; vm_compute; reflexivity]].
+  constructor; try reflexivity; try exact exd_disk_wf; try (vm_compute; discriminate).
+  - split; [|split; [exact exd_layout|intros c E; discriminate E]].
+    split; [intros n H; destruct H|]. split; [intros i H; discriminate H|]. split; [reflexivity|].
+    intros k _. apply exd_disk_wf.
+  - right. split; [reflexivity|]. split; reflexivity.
+Qed.
+
+(* a full volume (every FAT entry is an end-of-chain mark): a file of one full cluster, offset
+   1000; a write of 100 bytes stores 24 bytes - up to the end of the cluster - then DiskFull *)
+Definition exw_full_disk : disk :=
+  disk_set (PositiveMap.empty block) 11 (set_bytes zero_block 0 (repeat 255 204)).
+Definition exw_full_file : fileinfo :=
+  mk_fileinfo 7 0 0 2 1000 ReadWriteAppend (set_e_size exr_entry 1024) false.
+Definition exw_full_state : st :=
+  mk_st exw_full_disk zero_block None [exd_vol] [] [exw_full_file] 8 0 0 [] [] false 1 1 1.
+
+Example write_full_example :
+  mw_pre 1 7 exw_full_state 0 exw_full_file 0 exd_vol [2] /\
+  fst (mgr_write 7 (repeat 9 100) exw_full_state) = Err DiskFull /\
+  (let s' := snd (mgr_write 7 (repeat 9 100) exw_full_state) in
+   option_map (fun g => (f_offset g, e_size (f_entry g), f_dirty g))
+              (nth_error (s_files s') 0) = Some (1024, 1024, true) /\
+   skipn 1000 (file_bytes (s_disk s') exd_vol [2]) = repeat 9 24).
+Proof.
+  assert (Hwf : blocks_wf exw_full_disk) by (apply blocks_wf_elements; vm_compute; reflexivity).
+  split; [|split; [vm_compute; reflexivity|split; vm_compute; reflexivity]].
+  constructor; try reflexivity; try exact Hwf; try (vm_compute; discriminate).
+  - split; [|split; [exact exd_layout|intros c E; discriminate E]].
+    split; [intros n H; destruct H|]. split; [intros i H; discriminate H|]. split; [reflexivity|].
+    intros k _. apply Hwf.
+  - left. split; [vm_compute; discriminate|]. split; [exists 5%nat; vm_compute; reflexivity|].
+    exists 0%nat. split; reflexivity.
+Qed.
+
+Print Assumptions alloc_files_of_effect.
+Print Assumptions ext_eff_of_alloc.
+Print Assumptions wl_step_in_place.
+Print Assumptions wl_step_at_end.
+Print Assumptions write_loop_spec.
+Print Assumptions wl_post_contents.
+Print Assumptions wl_post_others.
+Print Assumptions mgr_write_read_only.
+Print Assumptions mgr_write_spec.
+Print Assumptions D23_clip_is_short.
+Print Assumptions write_example.
+Print Assumptions write_empty_example.
+Print Assumptions write_full_example.
